@@ -232,8 +232,17 @@ def run(ctx, rep: Report, deep: bool = False):
         for akai in (0, 1):
             cases.append(Case(f"names tokens {akai} {FN.hxs(s)}", FN.tokens_real(bool(akai), s)))
         rep.feat("token_strings_exhaustive")
+    # S179: groups of duplicates that differ only in the delimiter before a final L / R - their numbered names meet
+    # (`PAD -L`, `PAD -L`, `PAD L`, `PAD L` all number to `PAD (2) L`); the printed names must stay pairwise distinct
+    fixed_specs = [
+        [["PAD -L", None], ["PAD -L", None], ["PAD L", None], ["PAD L", None]],
+        [["A-R", None], ["A R", None], ["A-R", None], ["A R", None], ["A  R", None], ["A  R", None]],
+        [["V", [["X L", None], ["X-L", None], ["X L", None], ["X-L", None]]], ["V", None]],
+    ]
     for i in range(ctx.n(60, 600)):
-        spec = random_spec(rng)
+        spec = fixed_specs[i // 2] if i < 2 * len(fixed_specs) else random_spec(rng)
+        if i < 2 * len(fixed_specs):
+            rep.feat("duplicate_groups_differing_in_the_pair_delimiter")
         akai = i % 2 == 0
         root = make_tree(spec, akai)
         try:
@@ -259,7 +268,7 @@ def run(ctx, rep: Report, deep: bool = False):
         rep.feat("trees")
     if ctx.model_available:
         compare_family(rep, "names-path", cases, nontrivial=lambda c: True)
-    rep.required_features = ["trees", "roundtrips", "arbitrary_paths", "token_strings_exhaustive"]
+    rep.required_features = ["trees", "roundtrips", "arbitrary_paths", "token_strings_exhaustive", "duplicate_groups_differing_in_the_pair_delimiter"]
 
 
 def search(ctx, rep: Report):
